@@ -54,9 +54,25 @@ def render(tokens, acc=ACC, fields=FIELDS, launch=()):
 
     def emit(s):
         lines.append("  " * (2 + len(kinds)) + s)
+    # loops whose body reconfigures the accelerator (an invocation or an effectful call anywhere inside): a state defined before such a
+    # loop is the current one only on the first iteration, so it cannot be launched again from inside that loop
+    dirty, opened = {}, []
+    for i, t in enumerate(tokens):
+        if t == "F":
+            opened.append(i)
+            dirty[i] = False
+        elif t in ("X",):
+            opened.append(None)
+        elif t == ")":
+            opened.pop()
+        elif t.startswith("I") or t == "C":
+            for o in opened:
+                if o is not None:
+                    dirty[o] = True
+    open_loops = []        # (token index, nesting level at which the loop was opened)
     used = set()
     last = [None, 0]       # the most recent state and the nesting level it was defined at; None once it is no longer the current state
-    for t in tokens:
+    for ti, t in enumerate(tokens):
         if t.startswith("I"):
             vals = [(ivs[-1] if ivs else "%v2") if v == "IV" else v for v in CHOICES[int(t[1:])]]
             used.update(vals)
@@ -70,6 +86,7 @@ def render(tokens, acc=ACC, fields=FIELDS, launch=()):
         elif t == "F":
             i = fresh("i")
             emit(f"scf.for {i} = %c0 to %n0 step %c1 {{")
+            open_loops.append((ti, len(kinds)))
             kinds.append("F")
             scopes.append([])
             ic = fresh("ic")
@@ -95,6 +112,7 @@ def render(tokens, acc=ACC, fields=FIELDS, launch=()):
             scopes.pop()
             if k == "F":
                 ivs.pop()
+                open_loops.pop()
             emit("}")
         elif t == "C":
             emit("func.call @ext() : () -> ()")
@@ -104,7 +122,7 @@ def render(tokens, acc=ACC, fields=FIELDS, launch=()):
             emit("func.call @ext_safe() {accfg.effects = #accfg.effects<none>} : () -> ()")
             used_ext.add("ext_safe")
         elif t == "R":
-            if last[0] is not None:
+            if last[0] is not None and not any(dirty[fi] for fi, lvl in open_loops if lvl >= last[1]):
                 vis = [last[0]]
                 tk = fresh("t")
                 used.add("%b1")
